@@ -136,7 +136,7 @@ class ApplyMixin:
         # remove first occurrence: length drops by one when present; other members survive; an element different
         # from x is a member afterwards iff it was before.  (x itself may remain if it occurred twice.)
         self.global_facts += [
-            z3.ForAll([s, x], z3.And(v.slen(f(s, x)) == z3.If(v.shas(s, x), v.slen(s) - 1, v.slen(s)), v.ty(f(s, x)) == v.ty(s)), patterns=[f(s, x)]),
+            z3.ForAll([s, x], z3.And(v.slen(f(s, x)) == z3.If(v.shas(s, x), v.slen(s) - 1, v.slen(s)), v.ty(f(s, x)) == v.cls["list"]), patterns=[f(s, x)]),
             z3.ForAll([s, x, y], z3.Implies(z3.Not(v.pyeq(y, x)), v.shas(f(s, x), y) == v.shas(s, y)), patterns=[v.shas(f(s, x), y)]),
             z3.ForAll([s, x, y], z3.Implies(v.shas(f(s, x), y), v.shas(s, y)), patterns=[v.shas(f(s, x), y)]),
         ]
@@ -150,7 +150,7 @@ class ApplyMixin:
         s, x, y = z3.Consts("s x y", v.Val)
         i = z3.Int("i")
         self.global_facts += [
-            z3.ForAll([s, i, x], z3.And(v.slen(f(s, i, x)) == v.slen(s) + 1, v.ty(f(s, i, x)) == v.ty(s)), patterns=[f(s, i, x)]),
+            z3.ForAll([s, i, x], z3.And(v.slen(f(s, i, x)) == v.slen(s) + 1, v.ty(f(s, i, x)) == v.cls["list"]), patterns=[f(s, i, x)]),
             z3.ForAll([s, i, x, y], v.shas(f(s, i, x), y) == z3.Or(v.shas(s, y), v.pyeq(y, x)), patterns=[v.shas(f(s, i, x), y)]),
         ]
 
@@ -164,7 +164,7 @@ class ApplyMixin:
         self.global_facts += [
             z3.ForAll([d, e, k], v.dhas(f(d, e), k) == z3.Or(v.dhas(d, k), v.dhas(e, k)), patterns=[v.dhas(f(d, e), k)]),
             z3.ForAll([d, e, k], v.dget(f(d, e), k) == z3.If(v.dhas(e, k), v.dget(e, k), v.dget(d, k)), patterns=[v.dget(f(d, e), k)]),
-            z3.ForAll([d, e], v.ty(f(d, e)) == v.ty(d), patterns=[f(d, e)]),
+            z3.ForAll([d, e], v.ty(f(d, e)) == v.cls["dict"], patterns=[f(d, e)]),
         ]
 
     def str_method(self, recv, name, args, kw, st, fr, node):
@@ -258,7 +258,7 @@ class ApplyMixin:
         s, x = z3.Consts("s x", v.Val)
         i, j = z3.Ints("i j")
         self.global_facts += [
-            z3.ForAll([s, i, x], z3.And(v.slen(f(s, i, x)) == v.slen(s), v.ty(f(s, i, x)) == v.ty(s)), patterns=[f(s, i, x)]),
+            z3.ForAll([s, i, x], z3.And(v.slen(f(s, i, x)) == v.slen(s), v.ty(f(s, i, x)) == v.cls["list"]), patterns=[f(s, i, x)]),
             z3.ForAll([s, i, x, j], v.sat(f(s, i, x), j) == z3.If(j == i, x, v.sat(s, j)), patterns=[v.sat(f(s, i, x), j)]),
         ]
 
